@@ -56,6 +56,16 @@ FOCUS = {
 }
 
 
+FOCUS[7] = ("- THIS ROUND'S FOCUS: maintenance refactors. At least one of your two changes must be the kind of edit made while MODERNISING or "
+            "SPEEDING UP the code base rather than while changing behaviour on purpose: adapting to newer pandas / numpy idioms (frequency "
+            "aliases, `.loc`/`.iloc`/`.at` changes, `concat`/`reindex`/`groupby` rewrites, copy-on-write, timezone handling, dtype choices), "
+            "vectorising a Python loop, replacing `queue.Queue` by `collections.deque` or a list, a dict by `defaultdict`/`Counter`, string formatting "
+            "by f-strings, manual loops by `sum`/`min`/`max`/`sorted`/comprehensions, adding `dataclass`/`__slots__`/`__eq__`/`__hash__`, adding type "
+            "coercions (`int()`, `float()`, `round()`), hoisting an invariant out of a loop, merging duplicated branches, early returns, default "
+            "arguments (beware mutable defaults), context managers, or making a class iterable/cached. The refactor must look behaviour-preserving "
+            "to a reviewer and be so for the inputs the existing tests use.")
+
+
 def rnd_of(i):
     m = re.search(r'-r(\d)$', i)
     return int(m.group(1)) if m else 1
